@@ -44,7 +44,8 @@ type script struct {
 	ncallers int
 	desc     string
 	cfg      config
-	lines    []string // nil for random schedules
+	lines    []string  // nil for random schedules
+	items    []regItem // registry sweep: what this schedule sends
 }
 
 func loadScripts(path string) []script {
@@ -115,7 +116,11 @@ func runOne(s script, profile string, seed uint64, w *traceWriter) bool {
 			r.playScript(s.lines)
 		} else {
 			r.random = true
-			r.playRandom(vc.NewRng(seed).Fork(uint64(s.idx)+1), profile)
+			if s.items != nil {
+				r.playRegistry(s.items)
+			} else {
+				r.playRandom(vc.NewRng(seed).Fork(uint64(s.idx)+1), profile)
+			}
 			if r.status == "ok" {
 				r.slog("finish")
 				r.settleAndProbe()
@@ -240,6 +245,13 @@ func (r *run) playScript(lines []string) {
 		case "finish":
 			r.slog(l)
 			r.settleAndProbe()
+		case "probe":
+			r.slog(l)
+			r.runEnabled()
+			r.probe()
+		case "settle":
+			r.slog(l)
+			r.runEnabled()
 		default:
 			trouble("bad script line %q", l)
 		}
@@ -313,7 +325,11 @@ func (r *run) settleAndProbe() {
 		}
 	}
 	r.runEnabled()
-	// probe: a new caller, one call, answered by the server
+	r.probe()
+}
+
+// probe: a new caller, one call, answered by the server; it must return its answer
+func (r *run) probe() {
 	t := len(r.callers)
 	r.addCaller()
 	tok := int64(5000000 + 10*(r.idx%1000) + r.nprobes)
@@ -356,7 +372,7 @@ func profileTag(p string) uint64 {
 	switch p {
 	case "c11":
 		return 0xc11c11
-	case "c16":
+	case "c16", "c16r":
 		return 0xc16c16
 	default:
 		return 0xc10c10
@@ -366,6 +382,9 @@ func profileTag(p string) uint64 {
 func schedules(profile, mode, arg string, seed uint64) []script {
 	if mode == "script" {
 		return loadScripts(arg)
+	}
+	if profile == "c16r" {
+		return registrySchedules(arg, seed)
 	}
 	n, _ := strconv.Atoi(arg)
 	g := vc.NewRng(seed ^ profileTag(profile))
